@@ -229,6 +229,9 @@ def verify_targets(targets, repo, tier='quick', property_id=None, native=True):
                     report['covers']['by_concrete_witness'] += 1
                 elif res['verdict'] == 'sat':
                     report['covers']['reachable'] += 1
+                elif res['verdict'] == 'unsat' and not ob.label.startswith('requires-satisfiable'):
+                    # an allowed exception that no path can raise: harmless (the contract merely permits it)
+                    report['covers'].setdefault('unreachable_raise_paths', []).append(ob.name)
                 elif res['verdict'] == 'unsat':
                     report['covers']['vacuous'].append(ob.name)
                     report['refuted'].append({'obligation': ob.name, 'kind': 'vacuity', 'line': ob.line,
